@@ -787,12 +787,18 @@ def _np_code(dtype):
     return str(dtype)
 
 
-def _enc_np(a):
-    """numpy array -> protocol array tokens (floats as unit counts)"""
+def _enc_np(a, table, grow):
+    """numpy array -> protocol array tokens.  The merger only MOVES data values, so they are transported as ids into a
+    per-case table of the distinct values (like strings; a float64 as a unit count has ~320 digits); `grow=False` (impl
+    output): a value that is not in the table gets a negative id and can never compare equal"""
     a = np.asarray(a)
     dt = _np_code(a.dtype)
     flat = a.reshape(-1)
-    vals = [str(meshgen.f2u(float(x))) for x in flat] if dt in ("f64", "f32", "f16") else [str(int(x)) for x in flat]
+    keys = [meshgen.f2u(float(x)) for x in flat] if dt in ("f64", "f32", "f16") else [int(x) for x in flat]
+    if grow:
+        vals = [str(table.setdefault(k, len(table))) for k in keys]
+    else:
+        vals = [str(table.get(k, -1 - i)) for i, k in enumerate(keys)]
     shape = [str(x) for x in a.shape]
     return " ".join([dt, str(len(shape))] + shape + [str(len(vals))] + vals)
 
@@ -804,6 +810,7 @@ def _units(xs):
 def enc_c06rd(case, ext, ids):
     """the listed piece files as the model sees them: extent, geometry, data arrays as the piece reader returns them"""
     toks = ["c06rd", str(len(ext))]
+    table = {}
     basis = case.get("direction") or [[1.0, 0.0, 0.0], [0.0, 1.0, 0.0], [0.0, 0.0, 1.0]]
     for i, (b, e) in enumerate(ids["blocks"]):
         toks += [str(x) for x in ext[i]]
@@ -822,11 +829,11 @@ def enc_c06rd(case, ext, ids):
             toks.append(str(len(fields)))
             for name, dt, nc, arr in fields:
                 a = arr[np.array(sel, dtype=int)]
-                toks += [name, _enc_np(a.reshape(-1) if nc == 1 else a)]
-    return " ".join(toks)
+                toks += [name, _enc_np(a.reshape(-1) if nc == 1 else a, table, True)]
+    return " ".join(toks), table
 
 
-def impl_read_observable(par):
+def impl_read_observable(par, table):
     """(mesh, point fields, cell fields) of a structured MeshFields in the encoding of the driver's c06rd reply"""
     from fieldcompare.mesh import ImageMesh, RectilinearMesh
     from fieldcompare.mesh._mesh_fields import remove_cell_type_suffix
@@ -844,7 +851,7 @@ def impl_read_observable(par):
         mesh = ["S"] + ext + [str(len(pts))] + [str(u) for u in _units(pts.reshape(-1))]
 
     def arr(a):
-        return ",".join(_enc_np(a).split(" "))
+        return ",".join(_enc_np(a, table, False).split(" "))
     pf = {f.name: arr(f.values) for f in par.point_fields}
     cf = {remove_cell_type_suffix(ct, f.name): arr(f.values) for f, ct in par.cell_fields_types}
     return ",".join(mesh), pf, cf
@@ -876,10 +883,9 @@ def eval_structured_file(ctx, cases, tmpdir):
                 fb = {f.name: np.asarray(f.values) for f in seq}
                 fields_equal = (sorted(fa) == sorted(fb) and
                                 all(fa[n].dtype == fb[n].dtype and np.array_equal(fa[n], fb[n]) for n in fa))
-                par_obs = impl_read_observable(par)
             err = None
         except Exception as e:  # noqa: BLE001
-            pc = sc = verdict = par_points = par_obs = None
+            pc = sc = verdict = par_points = par = None
             fields_equal = False
             err = f"{type(e).__name__}: {e}"
         for p in paths:
@@ -910,8 +916,9 @@ def eval_structured_file(ctx, cases, tmpdir):
                          " ".join(" ".join([str(len(v))] + [str(x) for x in v]) for v in ids[kind]))
             meta.append((case, kind))
         # model of the whole `_merge_structured`: mesh object + every data array (dtype, shape, values)
-        lines.append(enc_c06rd(case, ext, ids))
-        meta.append((case, ("read", err, par_obs)))
+        rd_line, rd_table = enc_c06rd(case, ext, ids)
+        lines.append(rd_line)
+        meta.append((case, ("read", err, (par, rd_table))))
         if case["fmt"] == "vtr":
             # model of PVTRReader._make_structured_mesh: ordinates of the merged grid
             toks = []
@@ -924,7 +931,12 @@ def eval_structured_file(ctx, cases, tmpdir):
     replies = ctx.lean(lines) if ctx.driver_ok else []
     for (case, kind), rep in zip(meta, replies):
         if isinstance(kind, tuple) and kind[0] == "read":
-            _, ierr, iobs = kind
+            _, ierr, (ipar, itable) = kind
+            if ierr is None:
+                try:
+                    iobs = impl_read_observable(ipar, itable)
+                except Exception as e:  # noqa: BLE001
+                    ierr = f"{type(e).__name__}: {e}"
             if "model" not in rep or rep.get("hyp") != "1":
                 ctx.inconsistent(case, str(rep)[:300], "c06rd: hyp=1 on a generated decomposition")
             elif rep["model"] == "E":
